@@ -78,9 +78,11 @@ def handlePure : List String → Option String
   | "upgrade" :: stored :: states => do
     -- stored: "absent" or hex string; states: state names ("-" = initial state)
     let st : Option String ← (if stored == "absent" then some none else (unhexStr stored).map some)
-    let ss ← states.mapM fun n => Gen.St.ofName (if n == "-" then "" else n)
-    match safeUpgrade Gen.dbVersion st ss with
-    | .error _ => pure "err activeSwaps"
+    -- "corrupt" = a record of the swaps bucket that does not decode
+    let ss ← states.mapM fun n => if n == "corrupt" then some none else (Gen.St.ofName (if n == "-" then "" else n)).map some
+    match safeUpgradeQ Gen.dbVersion st ss with
+    | .error .activeSwaps => pure "err activeSwaps"
+    | .error .queryFailed => pure "err other"
     | .ok none => pure "ok absent"
     | .ok (some v) => pure ("ok " ++ hexStr v)
   | ["wire.classify", s] => do
